@@ -147,3 +147,19 @@ prop("C12", shards=16,
      level_text="Model-based sampling of histories steered through every palette upgrade boundary.",
      level_note="Trusted: harness/ref/pal + ref/bits + ref/leb; go-mc's block/biome tables only for the id ranges. Vanilla width rules: "
                 "blocks bits byte 0 / 1..4 -> 4 bits / 5..8 / >= 9 direct 15 bits; biomes 0 / 1..3 / >= 4 direct 6 bits.")
+
+prop("C13", shards=16,
+     technique="model-based rapid histories of chunk edits with network and save round trips; exhaustive registry sweep",
+     rule="Chunks of 1..6 (thorough 1..24) sections built by histories of SetBlock (per-section value pools sized at the palette "
+          "boundaries, bulk fills crossing representation classes 0/4/5..8/15 bits), biome Set, height-map Set on all six maps "
+          "(each map gets distinct content so a swap cannot hide), block entities (XZ, Y, type, RawMessage data from generated "
+          "compounds or none), light arrays nil/2048 bytes, status. Network: WriteTo -> EmptyChunk(n).ReadFrom: every block, biome, "
+          "BlockCount, MOTION_BLOCKING and WORLD_SURFACE raw longs, block entities equal; exactly the written bytes consumed "
+          "(sentinel). Save: ChunkToSave -> ChunkFromSave: blocks, biomes, light arrays, status, six height maps each under its own "
+          "name. Counter: after every SetBlock BlockCount == non-air cells of the model (air decided by block name). Registry "
+          "(both tiers, exhaustive): all 26684 states through SetBlock/ChunkToSave/ChunkFromSave come back, (name, properties) pairs "
+          "pairwise distinct, ToStateID[StateList[s]] == s. Non-trivial: >= 2 palette classes, or a block entity, or > 6 edits. "
+          "Distinct: hash of the JSON case; registry states counted arithmetically.",
+     level_text="Model-based sampling of edit histories; the state-registry clause is enumerated completely.",
+     level_note="Trusted: the model in the test, go-mc's block table for names/ids (the property is about go-mc's use of it), ref/nbt "
+                "for block-entity payloads. Light arrays are not part of the network clause (the statement omits them).")
